@@ -93,9 +93,13 @@ def gen_scenario(rng, prof=None):
             elif n in crashed:
                 ops.append(f"recover {n}")
                 crashed.discard(n)
-                for p in procs:
+                for k, p in enumerate(procs):
                     if p[1] == n and rng.random() < 0.8:
-                        ops.append(f"proc {p[0]} {p[1]}{p[2]}")
+                        # usually on the same node; sometimes the process is re-created elsewhere (failover)
+                        others = [x for x in nodes if x != n and x not in crashed]
+                        if others and rng.random() < 0.3:
+                            procs[k] = (p[0], rng.choice(others), p[2])
+                        ops.append(f"proc {procs[k][0]} {procs[k][1]}{procs[k][2]}")
             elif len(crashed) + 1 < len(nodes):
                 ops.append(f"crash {n}"); crashed.add(n)
         elif r < 0.74 + prof["p_crash"] * 0.5 + prof["p_link"] * 0.5 and len(nodes) > 1:
@@ -219,7 +223,10 @@ def gen_crash_burst(rng):
             lines.append(f"recover {n}")
             for p in procs:
                 if loc[p] == n:
-                    lines.append(f"proc {p} {n}")
+                    others = [x for x in nodes if x != n and x not in down]
+                    if others and rng.random() < 0.3:
+                        loc[p] = rng.choice(others)      # failover: the process comes back on another node
+                    lines.append(f"proc {p} {loc[p]}")
         lines.append("steps 6")
     lines.append("obs")
     return lines
